@@ -112,6 +112,7 @@ func stackVariants(full bool) []struct {
 		sv{"f({1,p2,...})", one(F, FILE, 10, Ag(true, Sc(1), Sc(p2)))},
 		sv{"f({1,p3,...})", one(F, FILE, 10, Ag(true, Sc(1), Sc(p3)))},
 		sv{"f(1,p1)@Main.go", one(F, "/src/app/Main.go", 10, Sc(1), Sc(p1))},
+		sv{"F(1,p1)", one("main.F", FILE, 10, Sc(1), Sc(p1))}, // the function's name differs by letter case only
 	)
 	if !full {
 		out = append(out, sv{"f({1,p1,...})", one(F, FILE, 10, Ag(true, Sc(1), Sc(p1)))})
@@ -137,14 +138,16 @@ func stackVariants(full bool) []struct {
 }
 
 // baseOnly variants appear in the base context (first state, not locked, no sleep, no creator) only.
-var baseOnly = map[string]bool{"f({1,p1,...})": true, "f({1,p2,...})": true, "f({1,p3,...})": true, "f(1,p1)@Main.go": true}
+var baseOnly = map[string]bool{"f({1,p1,...})": true, "f({1,p2,...})": true, "f({1,p3,...})": true, "f(1,p1)@Main.go": true, "F(1,p1)": true}
 
 // Universe builds the signature universe. size: "small" (a star of ~140 signatures), "medium" (nearly the full product, ~530), "large" (full product with more contexts and stack variants).
 func Universe(size string) []SnapVariant {
 	// the third state differs from the first by the runtime's parenthesised qualifier only
 	states := []string{"chan receive", "select", "chan receive (nil chan)"}
 	lockeds := []bool{false, true}
-	sleeps := []int{0, 7}
+	// 3 and 90 minutes only with the first two stacks in the otherwise base context (see below): four sleep values
+	// of one signature meet in every order, so a minimum or maximum that depends on the arrival order shows
+	sleeps := []int{0, 7, 3, 90}
 	creators := []stack.Stack{
 		{},
 		{Calls: []stack.Call{MkCall("main.spawnA", "/src/app/spawn.go", 30, 0, stack.Args{})}},
@@ -158,7 +161,7 @@ func Universe(size string) []SnapVariant {
 	)
 	full := size == "large"
 	if full {
-		sleeps = []int{0, 7, 90}
+		sleeps = []int{0, 7, 90, 3}
 		creators = append(creators,
 			stack.Stack{Calls: []stack.Call{MkCall("main.spawnA", "/src/app/spawn.go", 31, 0, stack.Args{})}},
 			stack.Stack{Calls: []stack.Call{MkCall("main.spawnA", "/src/app/spawn2.go", 30, 0, stack.Args{})}},
@@ -183,6 +186,9 @@ func Universe(size string) []SnapVariant {
 						}
 						if (ci == 3 || ci == 4) && !(si == 0 && li == 0 && sli == 0) {
 							continue // the multi-call creators only with the base state/lock/sleep (every size)
+						}
+						if (sl == 3 || (sl == 90 && !full)) && !(si == 0 && li == 0 && ci == 0 && ki < 2) {
+							continue
 						}
 						if baseOnly[sv.desc] && !(si == 0 && li == 0 && sli == 0 && ci == 0) && !(full && sv.desc == "f({1,p1,...})") {
 							continue
